@@ -38,6 +38,7 @@ type burstObs struct {
 	Events   []string // canonical delivered events (time 0), the fence event last
 	List     string   // List(WithInclude) after the burst: id=v,...
 	FenceOK  bool
+	Blocked  bool // a write of the burst did not return within fenceTimeout
 	Panicked string
 }
 
@@ -162,17 +163,41 @@ func (s session) run() (obs []burstObs) {
 			// that goroutine blocks on us: read while writing
 			drainReq <- struct{}{}
 		}
-		panicked, msg := lib.Catch(func() {
-			for _, op := range burst {
-				if err := applyOp(c, op); err != nil {
-					b.Results = append(b.Results, "fail")
-				} else {
-					b.Results = append(b.Results, "ok")
+		// the writes run in their own goroutine so that a write that never returns is an observation,
+		// not a hang of the harness
+		type wres struct {
+			results  []string
+			panicked string
+		}
+		wdone := make(chan wres, 1)
+		go func() {
+			var w wres
+			panicked, msg := lib.Catch(func() {
+				for _, op := range burst {
+					if err := applyOp(c, op); err != nil {
+						w.results = append(w.results, "fail")
+					} else {
+						w.results = append(w.results, "ok")
+					}
 				}
+			})
+			if panicked {
+				w.panicked = msg
 			}
-		})
-		if panicked {
-			b.Panicked = msg
+			wdone <- w
+		}()
+		panicked := false
+		select {
+		case w := <-wdone:
+			b.Results = w.results
+			if w.panicked != "" {
+				b.Panicked, panicked = w.panicked, true
+			}
+		case <-time.After(fenceTimeout):
+			b.Blocked = true
+			obs = append(obs, b)
+			cancel() // lets the blocked bus.Send give up (listener context cancelled)
+			return obs
 		}
 		if !s.BP {
 			drainReq <- struct{}{}
@@ -312,6 +337,10 @@ func (s session) monitor(m *lib.Monitor, obs []burstObs) {
 	for bi, b := range obs {
 		if b.Panicked != "" {
 			m.Violate(pre+"panic", "a write panicked while an include-filtered Pull was open", s, "no panic", b.Panicked)
+			return
+		}
+		if b.Blocked {
+			m.Violate(pre+"write-blocked", "a write did not return within 3s while an include-filtered Pull was open and (with backpressure) being read", s, "write returns", "blocked in burst "+strings.Join(b.Ops, " "))
 			return
 		}
 		if !b.FenceOK {
@@ -630,16 +659,32 @@ func runPull(f lib.Flags, res *lib.Result, drv *lib.Driver) {
 	mon := res.Monitor("pull-fold", "on the same sessions, independent of the model: seed = filtered list; with backpressure the delivered stream is exactly the filtered edit script per write (in-in delivered as is, out-in ADD, in-out REMOVE, out-out nothing); every delivered event is well formed at the subscriber's view; after every burst fold(delivered) = filtered shadow map = List(WithInclude p); distinct = (predicate, burst)")
 	r := lib.NewRand(f.Seed)
 	n := f.N(1500, 20000)
+	stuck := 0
 	for i := 0; i < n; i++ {
 		bp := i%2 == 0
 		s := genSession(r, bp, i < n/5)
-		evalSession(s, drv, tieBP, tieLossy, mon)
+		if evalSession(s, drv, tieBP, tieLossy, mon) {
+			stuck++
+			if stuck > 6 {
+				// every such session costs seconds; the pipeline is broken beyond doubt
+				err := fmt.Errorf("aborted after %d sessions in which a write or the fence did not come through within %s", stuck, fenceTimeout)
+				tieBP.Fail(err)
+				tieLossy.Fail(err)
+				break
+			}
+		}
 	}
 }
 
-func evalSession(s session, drv *lib.Driver, tieBP, tieLossy *lib.Tie, mon *lib.Monitor) {
+// evalSession returns true when the session got stuck (a write blocked or a fence was lost).
+func evalSession(s session, drv *lib.Driver, tieBP, tieLossy *lib.Tie, mon *lib.Monitor) (stuck bool) {
 	obs := s.run()
 	s.monitor(mon, obs)
+	for _, b := range obs {
+		if b.Blocked || !b.FenceOK {
+			stuck = true
+		}
+	}
 	if drv == nil {
 		return
 	}
@@ -689,4 +734,5 @@ func evalSession(s session, drv *lib.Driver, tieBP, tieLossy *lib.Tie, mon *lib.
 		tieLossy.Count(fmt.Sprintf("burst=%d delivered=%d modelset=%d", len(b.Ops)-1, len(events)-1, len(set)))
 	}
 	tieLossy.Record(key, !s.Pred.Nil, s, strings.Join(model, " "), strings.Join(code, " "))
+	return
 }
